@@ -84,6 +84,43 @@ def normalised_copy(body, local, pname, adt, field):
     return True
 
 
+def copies_by_evaluation(facts, conv, adt, mpath, mt, tf):
+    """Does every Ok path of the conversion return a value of `adt` whose stored fields are the model's fields, unchanged (a field listed in NORMALISED may
+    have passed through its normalising method)? Judged on the symbolically evaluated body, with each model field an opaque stored value."""
+    import cel, paths
+    from cel import Sym, Rec, vkey
+    mfields = [x["name"] for x in mt["variants"][0]["fields"]]
+    stored = {n: Sym("stored", n) for n in mfields}
+    tuple_like = all(n.isdigit() for n in mfields)
+    model = Sym("ctor", mpath.rsplit("::", 1)[-1], *[stored[n] for n in mfields]) if tuple_like else Rec(mpath, dict(stored))
+    try:
+        got = cel.Ev(facts).apply_fn(conv["fn"], [model], 0)
+    except cel.Unsupported:
+        return False
+    oks = 0
+    for c_, v in paths.flatten(got):
+        if isinstance(v, Sym) and v.tag[:2] == ("ctor", "Err"):
+            continue
+        if not (isinstance(v, Sym) and v.tag[:2] == ("ctor", "Ok") and len(v.tag) == 3):
+            return False
+        x = v.tag[2]
+        oks += 1
+        for f_ in tf:
+            n = f_["name"]
+            if isinstance(x, Rec) and x.adt.split("<")[0] == adt:
+                have = x.fields.get(n)
+            elif isinstance(x, Sym) and x.tag[:2] == ("ctor", adt.rsplit("::", 1)[-1]) and n.isdigit() and int(n) + 2 < len(x.tag):
+                have = x.tag[2 + int(n)]
+            else:
+                return False
+            want = [vkey(stored[n])]
+            if (adt, n) in NORMALISED:
+                want.append(vkey(Sym("mut", NORMALISED[(adt, n)][0], vkey(stored[n]), ())))
+            if have is None or vkey(have) not in want:
+                return False
+    return oks > 0
+
+
 def run(ck, facts, tier):
     repo = facts.repo
     # ---------------- S16.1
@@ -225,17 +262,30 @@ def run(ck, facts, tier):
                 e = lits[0]
                 if e["k"] == "struct":
                     pairs = [(n, field_path(v)) for n, v in e["fields"]]
-                    ok = all(fp == (pname, n) or (fp is not None and len(fp) == 1 and normalised_copy(c["body"], fp[0], pname, adt, n)) for n, fp in pairs) and \
+                    def via_sorter(n, v):
+                        # `field: model.field.into_sorted()` — a consuming wrapper every path of which sorts (rules/c11.sorting_wrappers) on an allowed field
+                        v = strip(v)
+                        if (adt, n) in NORMALISED and v.get("k") == "mcall" and not v["args"] and field_path(v["recv"]) == (pname, n):
+                            import cfg as cfgmod_
+                            from rules import c11
+                            return (v.get("resolved") or v.get("callee") or "") in c11.sorting_wrappers(cfgmod_.Program(facts))
+                        return False
+                    ok = all(fp == (pname, n) or (fp is not None and len(fp) == 1 and normalised_copy(c["body"], fp[0], pname, adt, n)) or via_sorter(n, v_)
+                             for (n, fp), (_, v_) in zip(pairs, e["fields"])) and \
                         [n for n, _ in pairs] == [x["name"] for x in tf]
                 else:
                     pairs = [(str(i), field_path(v)) for i, v in enumerate(e["args"])]
                     ok = all(fp == (pname, n) for n, fp in pairs) and len(pairs) == len(tf)
+                if not ok:
+                    ok = copies_by_evaluation(facts, c, adt, mpath, mt, tf)          # the same statement judged on the evaluated body (destructuring, delegation to another loader, helpers)
                 ck.check(s7, adt, ok, "conversion does not copy every stored field unchanged: %s" % hir.fmt(e), cwhere, sample=hir.fmt(e))
             elif viactor:
                 e = viactor[0]
                 srcs = [field_path(x) for x in e["args"]]
                 ck.check(s7, adt, all(s and s[0] == pname for s in srcs) and len(srcs) == len(tf),
                          "constructor call does not receive every stored field: %s" % hir.fmt(e), cwhere, sample=hir.fmt(e))
+            elif copies_by_evaluation(facts, c, adt, mpath, mt, tf):
+                ck.ok(s7, adt, sample="every Ok path returns the stored fields unchanged (evaluated through the helpers the conversion calls)")
             else:
                 ck.fail(s7, adt, "conversion from %s builds the value in a way the rule does not recognise" % model, cwhere)
 
